@@ -27,6 +27,7 @@ RULE = (
 ASSUMPTIONS = [
     "history part: all ordered pairs (thorough: triples) of a small call alphabet chosen to collide in every shape-like cache key, each history in a forked child, compared with a fresh-process result",
     "image height and width are multiples of the output stride, plus a few sizes that are not (2 in quick, 6 in thorough): there the shape clause H/stride accepts floor or ceil and every cell of the returned grid is checked against the Gaussian at (col*stride, row*stride)",
+    "animals wholly 8..46 px outside the frame (alphabet F) next to an animal inside, for the multi-instance and centroid variants",
     "coordinates come from the alphabet {NaN,-3,-0.5,0,0.25,1,2.5,size-1,size-0.5,size+2,1e4,+inf} per axis (thorough: plus the "
     "quarter-pixel lattice -1..size+0.5); larger shapes use the reduced keypoint alphabets R12/R6/R5/R4/R3 defined in the module",
     "rows beyond num_instances are all-NaN padding (what the pipelines produce); num_instances = number of non-padding rows (0 for a frame without labelled animals: only padding slots)",
@@ -89,7 +90,9 @@ def alphabet(name, H, W):
         ]
         r6 = [(NAN, NAN), (1.0, 2.5), (W - 1.0, 0.25), (-0.5, H - 0.5), (2.5, NAN), (W + 2.0, 1.0)]
         r3 = [(NAN, NAN), (1.0, 2.5), (W - 1.5, 0.25)]
-        a = {"R12": r12, "R6": r6, "R5": r6[:5], "R4": r6[:4], "R3": r3}[name]
+        # F: points far outside the frame (8 .. 46 px), where the Gaussian of a coarse stride still reaches into the image
+        far = [(-8.0, 1.0), (-24.0, 2.5), (-46.0, 0.25), (W + 7.0, 1.0), (W + 23.0, H - 1.0), (1.0, -24.0), (2.5, H + 45.0)]
+        a = {"R12": r12, "R6": r6, "R5": r6[:5], "R4": r6[:4], "R3": r3, "F": far}[name]
     _ALPH[key] = np.asarray(a, dtype=np.float64)
     return _ALPH[key]
 
@@ -479,8 +482,9 @@ def shape_table(tier_part):
             "single3": [(1, 1, ["K"], (0,)), (1, 2, ["R12"] * 2, (0,))],
             "single4": [(1, 2, ["R12"] * 2, (0,)), (2, 1, ["R12"] * 2, (0,)), (2, 2, ["R5"] * 4, (0,))],
             "multi": [(1, 1, ["K"], (0, 1)), (1, 2, ["R12"] * 2, (0, 1)), (2, 1, ["R12"] * 2, (0, 1)), (2, 2, ["R5"] * 4, (0, 1)),
-                      (0, 1, [], (1, 2)), (0, 2, [], (1, 3))],  # A = 0: a frame without any labelled animal (only padding slots)
-            "cent": [(1, 1, ["K"], (0, 1)), (2, 1, ["R12"] * 2, (0, 1)), (0, 1, [], (1, 2, 3))],
+                      (0, 1, [], (1, 2)), (0, 2, [], (1, 3)),  # A = 0: a frame without any labelled animal (only padding slots)
+                      (2, 1, ["F", "R5"], (0,)), (1, 2, ["F", "F"], (0, 1))],  # an animal wholly far outside the frame
+            "cent": [(1, 1, ["K"], (0, 1)), (2, 1, ["R12"] * 2, (0, 1)), (0, 1, [], (1, 2, 3)), (2, 1, ["F", "R5"], (0,))],
         }
     if tier_part == "heavy":
         return {
